@@ -90,7 +90,7 @@ pub fn hash_of<T: Hash>(t: &T) -> u64 {
 
 /// A sub-check of a property: a generator and an oracle over one case type.
 pub trait SubCheck: Sync {
-	type Case: Debug + Clone + Serialize + DeserializeOwned + Send + 'static;
+	type Case: Debug + Clone + Serialize + DeserializeOwned + Send + Sync + 'static;
 	fn name(&self) -> &'static str;
 	fn strategy(&self, tier: Tier) -> BoxedStrategy<Self::Case>;
 	fn cases(&self, tier: Tier) -> u32;
@@ -98,6 +98,10 @@ pub trait SubCheck: Sync {
 	/// how many shards (threads) to use
 	fn shards(&self, tier: Tier) -> u32 {
 		tier.pick(8, 16)
+	}
+	/// smaller cases to try when an enumerated (non-proptest) case fails
+	fn split(&self, _case: &Self::Case) -> Vec<Self::Case> {
+		vec![]
 	}
 }
 
@@ -365,6 +369,124 @@ impl Ctx {
 			json!({"cases": sub_cases, "evaluations": sub_eval, "nontrivial_cases": sub_nt, "classes": sub_classes,
 				"wall_s": t0.elapsed().as_secs_f64(), "shards": shards}),
 		);
+		if let Some((case, fails)) = first_failure {
+			self.report_violation(name, &case, &fails);
+		}
+		self.run_probes(sc);
+	}
+
+	/// Run an explicit list of cases (enumeration) on `threads` threads; a failing case is reduced with `split`.
+	pub fn run_cases_parallel<S: SubCheck>(&mut self, sc: &S, cases: Vec<S::Case>, threads: usize) {
+		let name = sc.name();
+		let t0 = Instant::now();
+		let known = self.known.clone();
+		let property = self.property;
+		let n = cases.len();
+		let threads = threads.max(1).min(n.max(1));
+		struct Out<C> {
+			evaluations: u64,
+			classes: BTreeMap<String, u64>,
+			distinct: HashSet<u64>,
+			samples: Vec<Value>,
+			excluded: BTreeMap<String, u64>,
+			failure: Option<(C, Vec<Failure>)>,
+		}
+		let cases_ref = &cases;
+		let outs: Vec<Out<S::Case>> = std::thread::scope(|scope| {
+			let hs: Vec<_> = (0..threads)
+				.map(|t| {
+					let known = &known;
+					scope.spawn(move || {
+						let mut o = Out { evaluations: 0, classes: BTreeMap::new(), distinct: HashSet::new(), samples: vec![], excluded: BTreeMap::new(), failure: None };
+						let mut i = t;
+						while i < cases_ref.len() {
+							let case = &cases_ref[i];
+							i += threads;
+							let mut obs = Obs::new();
+							let r = std::panic::catch_unwind(std::panic::AssertUnwindSafe(|| sc.run(case, &mut obs)));
+							if let Err(p) = r {
+								obs.fail(format!("{name}/panic"), panic_msg(&p));
+							}
+							o.evaluations += obs.weight.max(1);
+							for c in &obs.classes {
+								*o.classes.entry(c.clone()).or_insert(0) += 1;
+							}
+							if obs.nontrivial {
+								let h = hash_of(&format!("{case:?}"));
+								o.distinct.insert(h);
+								for k in &obs.nontrivial_keys {
+									o.distinct.insert(hash_of(&(h, k)));
+								}
+								if o.samples.len() < 2 {
+									o.samples.push(obs.sample.take().unwrap_or_else(|| serde_json::to_value(case).unwrap_or(Value::Null)));
+								}
+							}
+							let mut unknown = vec![];
+							for f in obs.failures {
+								if tolerated_signature(known, property, &f.signature) {
+									*o.excluded.entry(f.signature.clone()).or_insert(0) += 1;
+								} else {
+									unknown.push(f);
+								}
+							}
+							if !unknown.is_empty() {
+								// reduce
+								let mut best = (case.clone(), unknown);
+								loop {
+									let mut improved = false;
+									for piece in sc.split(&best.0) {
+										let mut obs = Obs::new();
+										let r = std::panic::catch_unwind(std::panic::AssertUnwindSafe(|| sc.run(&piece, &mut obs)));
+										if let Err(p) = r {
+											obs.fail(format!("{name}/panic"), panic_msg(&p));
+										}
+										let u: Vec<Failure> = obs.failures.into_iter().filter(|f| !tolerated_signature(known, property, &f.signature)).collect();
+										if !u.is_empty() {
+											best = (piece, u);
+											improved = true;
+											break;
+										}
+									}
+									if !improved {
+										break;
+									}
+								}
+								o.failure = Some(best);
+								break;
+							}
+						}
+						o
+					})
+				})
+				.collect();
+			hs.into_iter().map(|h| h.join().expect("enum thread")).collect()
+		});
+		let mut sub_eval = 0;
+		let mut sub_classes: BTreeMap<String, u64> = BTreeMap::new();
+		let mut first_failure = None;
+		for o in outs {
+			sub_eval += o.evaluations;
+			for (k, v) in o.classes {
+				*sub_classes.entry(k.clone()).or_insert(0) += v;
+				*self.classes.entry(format!("{name}:{k}")).or_insert(0) += v;
+			}
+			for (k, v) in o.excluded {
+				*self.excluded_known.entry(k).or_insert(0) += v;
+			}
+			for h in o.distinct {
+				self.distinct.insert(hash_of(&(name, h)));
+			}
+			for s in o.samples {
+				if self.samples.iter().filter(|x| x["sub"] == name).count() < 3 {
+					self.samples.push(json!({"sub": name, "case": s}));
+				}
+			}
+			if first_failure.is_none() {
+				first_failure = o.failure;
+			}
+		}
+		self.evaluations += sub_eval;
+		self.subs.insert(name.to_string(), json!({"cases": n, "evaluations": sub_eval, "classes": sub_classes, "wall_s": t0.elapsed().as_secs_f64(), "threads": threads, "enumerated": true}));
 		if let Some((case, fails)) = first_failure {
 			self.report_violation(name, &case, &fails);
 		}
